@@ -39,6 +39,12 @@ def path_str(e):
     e = peel(e)
     if e and e.get("k") == "path":
         return "::".join(e["segs"])
+    # `|x| Ctor(x)` names the same function as `Ctor`
+    if e and e.get("k") == "closure" and len(e.get("params") or []) == 1:
+        ps = closure_params(e)
+        bd = peel(closure_body(e))
+        if ps and ps[0].get("name") and bd.get("k") == "call" and bd["f"].get("k") == "path" and len(bd["args"]) == 1 and is_var(peel(bd["args"][0]), ps[0]["name"]):
+            return "::".join(bd["f"]["segs"])
     return None
 
 
